@@ -343,6 +343,11 @@ static var Type_Scan(var self, var cls) {
 }
 
 static bool Type_Implements(var self, var cls) {
+#if CELLO_NULL_CHECK == 1
+  if (self is NULL or cls is NULL) {
+    throw(ValueError, "Received NULL as type or class to look up an instance");
+  }
+#endif
   return Type_Scan(self, cls) isnt NULL;
 }
 
@@ -385,6 +390,11 @@ var type_method_at_offset(
 }
 
 static bool Type_Implements_Method_At_Offset(var self, var cls, size_t offset) {
+#if CELLO_NULL_CHECK == 1
+  if (self is NULL or cls is NULL) {
+    throw(ValueError, "Received NULL as type or class to look up an instance");
+  }
+#endif
   var inst = Type_Scan(self, cls);
   if (inst is NULL) { return false; }
   var meth = *((var*)(((char*)inst) + offset));
